@@ -1156,10 +1156,19 @@ func closeWithRenewingScan() string {
 // busyQueueScenario (C13): at the level of one region connection. The batching goroutine is stuck
 // inside a Write (the peer does not read); a second batchable call is handed to the connection and
 // waits for the send queue; its context ends: QueueRPC must return promptly.
-func busyQueueScenario(mode string) string {
+func busyQueueScenario(mode string) string { return busyQueueScenarioKind(mode, false) }
+
+// busyQueueScenarioKind(mode, true): the second call is one the connection writes from the caller's
+// own goroutine (a scan request, SkipBatch, any call on a connection with queue size 1): it waits for
+// the write lock, or inside conn.Write, behind the stuck flush.
+func busyQueueScenarioKind(mode string, direct bool) string {
+	api := "queue"
+	if direct {
+		api = "direct"
+	}
 	s := newConnScn(NewRNG(4, "c13busy"), 5)
 	if s.broken != "" {
-		return "c13 wait busy-send-queue queue " + mode + " 0 early:" + s.broken
+		return "c13 wait busy-send-queue " + api + " " + mode + " 0 early:" + s.broken
 	}
 	first := s.newCall(false, false)
 	go s.rc.QueueRPC(first.call)
@@ -1169,7 +1178,11 @@ func busyQueueScenario(mode string) string {
 		ctx, cancel = context.WithTimeout(context.Background(), 40*time.Millisecond)
 	}
 	defer cancel()
-	g, _ := hrpc.NewGet(ctx, []byte("t"), []byte("a-second"))
+	var gopts []func(hrpc.Call) error
+	if direct {
+		gopts = append(gopts, hrpc.SkipBatch())
+	}
+	g, _ := hrpc.NewGet(ctx, []byte("t"), []byte("a-second"), gopts...)
 	g.SetRegion(s.regs[0])
 	done := make(chan struct{})
 	go func() { s.rc.QueueRPC(g); close(done) }()
@@ -1205,7 +1218,7 @@ func busyQueueScenario(mode string) string {
 		}
 		time.Sleep(time.Millisecond)
 	}
-	return fmt.Sprintf("c13 wait busy-send-queue queue %s %d %s", mode, lat.Microseconds(), res)
+	return fmt.Sprintf("c13 wait busy-send-queue %s %s %d %s", api, mode, lat.Microseconds(), res)
 }
 
 // batchOwnCtx: a batch under a background context; one call's own context ends while its server
@@ -1845,6 +1858,7 @@ func init() {
 		}
 		jobs = append(jobs, func() string { return scanOpenScenario(false) }, func() string { return scanOpenScenario(true) })
 		jobs = append(jobs, func() string { return busyQueueScenario("cancel") }, func() string { return busyQueueScenario("deadline") })
+		jobs = append(jobs, func() string { return busyQueueScenarioKind("cancel", true) }, func() string { return busyQueueScenarioKind("deadline", true) })
 		runSharded("C13", tier, seed, out, 8, func(shard, nsh int, emit func(string)) {
 			for i := shard; i < len(jobs); i += nsh {
 				emit(jobs[i]())
